@@ -14,13 +14,14 @@ LEVEL = 'exploration'
 RULE = ('(a) execution-guided images with IO + a device script (at attach time and at IO call k: read_word / write_word / '
         'read_data_byte / write_data_byte on in-segment addresses incl. words the program later executes or flips and '
         'lazy zero-tail words) run on featured, fast, native flat/hybrid/paged; every value returned to the device, the '
-        'rest of the run and the final memory must equal the reference machine with the same script.  (b1) screen command '
+        'rest of the run and the final memory must equal the reference machine with the same script; (a2) the same with one '
+        'lazy 256-page segment in which the device writes a word on 20..128 distinct pages and reads them all back.  (b1) screen command '
         'streams (valid: init bpp 4/8, palette sizes 0..256, set_palette, update_screen, update_rectangle incl. zero-size '
         'and edge-touching, raw; malformed: unknown command, bad bpp, zero dimension, update before init, rectangle '
         'exceeding the screen, truncated) over a dict-backed DeviceMemory at w in {16,32,64} against a reference decoder '
         'written from the ScreenIO docstring.  (b2) images that emit a screen stream and hold framebuffer/palette as '
         'packed bytes, run on all engines/storage modes with InMemoryScreen attached: identical frames.  non-trivial = '
-        '(a) a device write to a word the program touches afterwards, (b) >= 2 presents with a palette change or '
+        '(a) a device write to a word the program touches afterwards, (a2) >= 34 pages written and read back on a native run, (b) >= 2 presents with a palette change or '
         'rectangle update between them')
 ASSUMPTIONS = ['out-of-segment device writes are outside the property (python reader makes the word valid, the native engine '
                'does not) and are not generated', 'screens <= 40x40']
@@ -147,6 +148,53 @@ def interleave_cases(draw):
     return img
 
 
+@st.composite
+def scatter_cases(draw):
+    """an IO program plus one lazy all-zero segment of 256 16K-word pages above the flat window; the device writes one word
+    in 34-128 of its pages (pairs of pages 128 apart included) and reads all of them back, at once and at a later IO call:
+    the native page table grows (64 -> 128 -> 256 slots) between the write and the read, and the page cache evicts."""
+    img = draw(imagegen.images(widths=(32, 64, 64), max_steps_choices=(20, 40), layouts={32: ['compact', 'few'], 64: ['compact', 'few']}))
+    d = D(draw)
+    w = img['w']
+    top = max(s + l for s, l, _ in img['segments'])
+    p0 = d.choice([600, 1024, 2000]) if w == 32 else d.choice([513, 1024, 4097, 1 << 20, 1 << 40])
+    while (p0 << 14) < top:
+        p0 += 1024
+    npg = 256
+    if ((p0 + npg) << 14) > (1 << (w - (w.bit_length() - 1))):
+        p0 = 600
+    img['segments'] = sorted(img['segments'] + [[p0 << 14, npg << 14, []]])
+    sd = d.int(0, (1 << 30) - 1)
+    n0 = d.choice([34, 45, 64, 24, 40])
+    offs, seen = [], set()
+    while len(offs) < n0:
+        sd = (sd * 6364136223846793005 + 1442695040888963407) & ((1 << 64) - 1)
+        o = (sd >> 20) % 128
+        if o not in seen:
+            seen.add(o)
+            offs.append(o)
+            if (sd >> 40) % 10 < 7:
+                offs.append(o + 128)
+    k1 = d.choice([0, 0, 1, 2])
+    script, words = [], []
+    for i, o in enumerate(offs):
+        sd = (sd * 6364136223846793005 + 1442695040888963407) & ((1 << 64) - 1)
+        wa = ((p0 + o) << 14) + (sd >> 30) % (1 << 14)
+        words.append(wa)
+        script.append([k1, 'ww', wa, ((sd >> 3) | 1) & ((1 << w) - 1)])
+    order = list(words)
+    if d.pct() < 50:
+        order.reverse()
+    script += [[k1, 'rw', wa, 0] for wa in order]
+    script += [[k1 + d.int(0, 2), 'rw', wa, 0] for wa in words[::3]]
+    img['script'] = script
+    img['cfgs'] = [['native', None, False], ['native', d.choice([1, 1 << 14, None]), True], ['native', d.choice([64, (1 << 14) + 1]), False],
+                   [d.choice(['fast', 'featured']), None, False]]
+    img['kind'] = 'interleave'
+    img['scatter'] = len(offs)
+    return img
+
+
 def run_interleave(case):
     w = case['w']
     segs = case['segments']
@@ -159,7 +207,7 @@ def run_interleave(case):
         return Discard('reference budget')
     path = engines.tmpdir() / 'c19.fjm'
     engines.write_image(path, w, segs, case['version'])
-    cl = ['family=interleave', 'w=%d' % w]
+    cl = ['family=%s' % ('scatter' if case.get('scatter') else 'interleave'), 'w=%d' % w]
     check_words = set()
     for s, l, d in segs:
         check_words.update(range(s, s + min(l, 2048)))
@@ -191,6 +239,9 @@ def run_interleave(case):
         cl.append('device wrote a word the program touches')
     if any(e[1] in ('rb', 'wb') for e in case['script']):
         cl.append('packed byte access')
+    if case.get('scatter'):
+        cl.append('device scatter over %s 16K-word pages, read back' % ('>= 65' if case['scatter'] >= 65 else '34..64' if case['scatter'] >= 34 else '< 34'))
+        return Ok(sorted(set(cl)), case['scatter'] >= 34 and len(modes) >= 1)
     return Ok(sorted(set(cl)), wrote_then_touched and ref.ops >= 3)
 
 
@@ -602,6 +653,7 @@ def run_screen_program(case):
 def families(tier):
     q = tier == 'quick'
     return [{'name': 'device-interleavings', 'strategy': interleave_cases, 'examples': 500 if q else 20000},
+            {'name': 'device-page-scatter', 'strategy': scatter_cases, 'examples': 30 if q else 1500},
             {'name': 'screen-streams', 'strategy': screen_streams, 'examples': 400 if q else 20000},
             {'name': 'screen-programs', 'strategy': screen_programs, 'examples': 40 if q else 2000}]
 
